@@ -17,6 +17,12 @@ DELS = {
     "Dall": ("delete from t", lambda r: True),
 }
 OPS = list(B) + list(DELS) + ["C", "R"]
+# second alphabet: a batch that fills several blocks of one row-set (a 64-byte block holds about a dozen INT keys), and deletes
+# that cover whole blocks / scan batches at the start or in the middle of the row-set while later rows of it survive
+B["IB"] = [(i, None if i % 7 == 3 else i % 3) for i in range(40)]
+DELS["Dk<26"] = ("delete from t where k < 26", lambda r: r[0] < 26)
+DELS["Dmid"] = ("delete from t where k >= 8 and k <= 30", lambda r: 8 <= r[0] <= 30)
+BIGOPS = ["IB", "I2", "Dk<26", "Dmid", "Dk=4", "C", "R"]
 CHURN = ["I1", "I2", "Dk<5", "Dall", "C", "R"]      # two delete vectors on each of two row-sets, then compacted to nothing
 
 
@@ -56,6 +62,9 @@ def cases(tier):
             for h in U.seqs(ops, d, d):
                 yield {"pk": pk, "engine": engine, "layout": layout, "history": list(h)}
             if engine == "disk":
+                for h in U.seqs(BIGOPS, d - 1, d - 1):
+                    if "IB" in h:
+                        yield {"pk": pk, "engine": engine, "layout": layout, "history": list(h)}
                 # non-initial start state: two row-sets deleted completely and compacted away (only delete vectors of
                 # vanished row-sets could be left); histories of d-1 further operations from there
                 for h in U.seqs(ops, d - 1, d - 1):
@@ -137,7 +146,7 @@ def judge(chk, case, r, seen_prefix, states):
 def run(tier, seed):
     d = depth(tier)
     chk = core.Check("C07", tier, "model_checking",
-                     f"all {len(OPS)}^{d} histories of depth {d} from the empty table and all {len(OPS)}^{d - 1} histories of depth {d - 1} from the churned start state {CHURN} (disk) (every prefix judged once) over ops {OPS} x {{pk, no pk}} x "
+                     f"all {len(OPS)}^{d} histories of depth {d} from the empty table and all {len(OPS)}^{d - 1} histories of depth {d - 1} from the churned start state {CHURN} (disk) (every prefix judged once) over ops {OPS}, plus all histories of depth {d - 1} containing the 40-row batch IB over {BIGOPS} (a row-set of several blocks; deletes covering whole blocks of it) x {{pk, no pk}} x "
                      "{memory (no C/R), disk layouts}; oracle after every step: multiset(select *) == plain-list model, reported "
                      "DML count == model count; final ORDER BY k scan sorted and complete. non-trivial = history contains a delete, compaction or reopen",
                      seed)
